@@ -110,7 +110,7 @@ bump();`
 
 // what every copy does with the template's objects after its own program
 const templateUse = `; [String(bump()) + adder(), boundBox("e", "m"), boundBox(T.count, null), boundOne(1, 2, 3), box.n,
- (tArgs[0] = T.count, tArgs[0] + tArgs.length), (delete T.items[0], T.items.push(T.count), T.items.join()),
+ (tArgs[0] = T.count, tArgs[0] + tArgs.length), (String(tArgs[1]) + (delete tArgs[1]) + String(tArgs[1]) + (1 in tArgs)), (delete T.items[0], T.items.push(T.count), T.items.join()),
  (T.nested.deep[1].x += 1), (tDate.setTime(T.count), tDate.getTime()), (tRe.test("aa"), tRe.lastIndex),
  (tErr.message += "!", tErr.message), (tStr.p = 1, Object.keys(tStr).join()), tAcc.v, (tAcc.v = 5, box.n),
  Object.keys(T).join()].join(";")`
